@@ -111,20 +111,25 @@ Definition next (r : req) (it : iter) (ex : list N) : option (iter * list N) :=
   end.
 
 (* ================= credentials and definitions ================= *)
-Inductive jv := VNum (z : Z) | VStr (s : N) | VBool (b : bool).
+(* VArr: an array-valued member, opaque (identified by a code): no scalar filter keyword accepts it *)
+Inductive jv := VNum (z : Z) | VStr (s : N) | VBool (b : bool) | VArr (a : N).
 Definition jv_eqb (a b : jv) : bool :=
   match a, b with
   | VNum x, VNum y => Z.eqb x y
   | VStr x, VStr y => N.eqb x y
   | VBool x, VBool y => Bool.eqb x y
+  | VArr x, VArr y => N.eqb x y
   | _, _ => false
   end.
 
 (* c_id 0 = no id; c_subject 0 = no subject id; c_jwt 0 = not a JWT credential, else the alg code;
    c_proofs = linked-data proof types; c_types = credential types (= schema URIs satisfied);
-   c_attrs = credentialSubject members (name, scalar) *)
+   c_sd = SD-JWT credential (every credentialSubject leaf is one disclosure; c_jwt is then its alg);
+   c_rawsubj = the holder keeps the subject as a map it built itself, not in the form ParseCredential produces;
+   c_attrs = credentialSubject leaves (key, value): key < 100 is a top-level member, key = 100*o + k the member
+   k of the nested object o (the same claim name at two levels) *)
 Record cred := { c_id : N; c_issuer : N; c_subject : N; c_types : list N; c_proofs : list N; c_jwt : N;
-                 c_attrs : list (N * jv) }.
+                 c_sd : bool; c_rawsubj : bool; c_attrs : list (N * jv) }.
 
 Record jfilter := { ft_type : N;                 (* 0 none, 1 number, 2 string, 3 boolean *)
                    ft_const : option jv; ft_min : option Z; ft_max : option Z; ft_enum : list jv }.
@@ -324,17 +329,31 @@ Definition id_key (v : variant) (i : nat) (c : cred) : ckey :=
   | Fixed => if N.eqb (c_id c) 0 then KPtr i else KId (c_id c)
   end.
 
-(* the new credential of createNewCredential (plain credentials) *)
+(* the new credential of createNewCredential (plain credentials).  The template of a limited credential keeps
+   id, type, issuer, issuanceDate and toSubject(subject): the subject id alone for the parsed single-subject form,
+   the WHOLE subject for a subject held as a map (pinned by the package's example tests: known finding) *)
 Definition limited_cred (k : constraints) (c : cred) : cred :=
   {| c_id := c_id c; c_issuer := c_issuer c; c_subject := c_subject c; c_types := c_types c;
-     c_proofs := if k_limit k then [] else c_proofs c; c_jwt := c_jwt c;
-     c_attrs := write_fields c (k_fields k) (if k_limit k then [] else c_attrs c) |}.
+     c_proofs := if k_limit k then [] else c_proofs c; c_jwt := c_jwt c; c_sd := false; c_rawsubj := false;
+     c_attrs := write_fields c (k_fields k) (if k_limit k then (if c_rawsubj c then c_attrs c else []) else c_attrs c) |}.
+
+(* getLimitedDisclosures (SD-JWT): the disclosures kept are those of the leaves a field path names, identified by
+   their position (digest listed in the parent object of the path), never by claim name alone *)
+Definition requested (k : constraints) (key : N) : bool := existsb (fun f => memN key (f_paths f)) (k_fields k).
+Definition sd_limited (k : constraints) (c : cred) : cred :=
+  {| c_id := c_id c; c_issuer := c_issuer c; c_subject := c_subject c; c_types := c_types c;
+     c_proofs := c_proofs c; c_jwt := c_jwt c; c_sd := true; c_rawsubj := false;
+     c_attrs := filter (fun kv => requested k (fst kv)) (c_attrs c) |}.
 
 Definition limit_one (v : variant) (d : desc) (ic : icred) : list wcred :=
   let '(i, c) := ic in
   match d_constraints d with
   | None => [{| w_key := id_key v i c; w_src := i; w_cred := c |}]
   | Some k =>
+      if c_sd c then
+        if k_limit k then [{| w_key := KTmp (d_id d) i; w_src := i; w_cred := sd_limited k c |}]
+        else [{| w_key := id_key v i c; w_src := i; w_cred := c |}]
+      else
       let pred := existsb f_pred (k_fields k) in
       if k_limit k && negb (pred || subject_is_issuer c) then []
       else if k_limit k || pred then [{| w_key := KTmp (d_id d) i; w_src := i; w_cred := limited_cred k c |}]
